@@ -286,6 +286,10 @@ func (v *verdict) evalField(f *fieldD, s *source, tree map[string]any, path stri
 			v.unk("%s: scalar options on a slice", p)
 		}
 	case reflect.Map:
+		if f.IntKey {
+			v.unk("%s: a map that is not keyed by strings", p)
+			return
+		}
 		m, ok := leaf.(map[string]any)
 		if !ok {
 			v.unk("%s: not an object", p)
@@ -791,7 +795,7 @@ func (c *comparer) field(f *fieldD, fv reflect.Value, s *source, tree map[string
 		c.elems(f.Elem, d, arr, s, p)
 	case reflect.Map:
 		m, ok := leaf.(map[string]any)
-		if !ok {
+		if !ok || f.IntKey {
 			return
 		}
 		d, dok := deref(fv)
